@@ -641,7 +641,9 @@ def _rem(ctx, eqn, a, b):
         # lax.rem on floats = C fmod: a - b*trunc(a/b); encoded with an integer quotient witness
         def frem(x, y):
             x, y = zreal(x), zreal(y)
-            q = z3.Int(ctx.fresh("fmodq"))
+            # the integer quotient trunc(x / y) is a FUNCTION of (x, y): equal operands give equal quotients (needed for relational obligations)
+            q = ctx.uf("fmodq", [z3.RealSort(), z3.RealSort()], z3.IntSort())(x, y)
+            ctx.__dict__.setdefault("fmod_quotients", []).append(q)
             r = x - y * z3.ToReal(q)
             ay = z3.If(y >= 0, y, -y)
             ctx.assume(z3.Implies(y != 0, z3.And(z3.If(x >= 0, z3.And(r >= 0, r < ay), z3.And(r <= 0, r > -ay)))))
@@ -1108,17 +1110,20 @@ def _scatter_generic(combine):
     def r(ctx, eqn, a, indices, updates):
         dn = eqn.params["dimension_numbers"]
         shp = out_shape(ctx, eqn)
-        uwd = tuple(dn.update_window_dims)
-        iwd = tuple(dn.inserted_window_dims)
-        sdtod = tuple(dn.scatter_dims_to_operand_dims)
-        if getattr(dn, "operand_batching_dims", ()):
-            raise Unsupported("scatter with batching dims")
-        upd_scatter_dims = [d for d in range(updates.ndim) if d not in uwd]
-        window_operand_dims = [d for d in range(a.ndim) if d not in iwd]
-        # number of scatter points must be concrete (it is 1 for x.at[i].set(v))
-        scat_shape = [updates.shape[d] for d in upd_scatter_dims]
+        uwd = tuple(int(d) for d in dn.update_window_dims)
+        iwd = tuple(int(d) for d in dn.inserted_window_dims)
+        sdtod = tuple(int(d) for d in dn.scatter_dims_to_operand_dims)
+        obd = tuple(int(d) for d in getattr(dn, "operand_batching_dims", ()))
+        ibd = tuple(int(d) for d in getattr(dn, "scatter_indices_batching_dims", ()))
+        upd_scatter_dims = [d for d in range(updates.ndim) if d not in uwd]  # correspond 1-1 to indices dims (all but the last)
+        window_operand_dims = [d for d in range(a.ndim) if d not in iwd and d not in obd]
+        # scatter dims that are batching dims are FORCED to the output's batch coordinate; the others are enumerated
+        free_pos = [k for k in range(len(upd_scatter_dims)) if k not in ibd]
+        scat_shape = [updates.shape[upd_scatter_dims[k]] for k in free_pos]
         if not all(isinstance(d, int) for d in scat_shape):
-            return _scatter_symbolic(ctx, eqn, a, indices, updates, combine, uwd, iwd, sdtod, upd_scatter_dims, window_operand_dims, scat_shape)
+            if obd:
+                raise Unsupported("batched scatter with symbolic number of scatter points")
+            return _scatter_symbolic(ctx, eqn, a, indices, updates, combine, uwd, iwd, sdtod, upd_scatter_dims, window_operand_dims, [updates.shape[d] for d in upd_scatter_dims])
         mode_s = str(eqn.params["mode"])
         clip = "CLIP" in mode_s
         points = list(itertools.product(*[range(d) for d in scat_shape]))
@@ -1127,19 +1132,24 @@ def _scatter_generic(combine):
 
         def fn(idx):
             val = a.at(idx)
-            for p in points:
+            for fp in points:
+                p = [None] * len(upd_scatter_dims)
+                for k, v in zip(free_pos, fp):
+                    p[k] = v
+                for od, ib in zip(obd, ibd):
+                    p[ib] = idx[od]
                 start = [0] * a.ndim
                 for k, opd in enumerate(sdtod):
-                    s = indices.at(tuple(p) + (k,))
-                    start[opd] = s
-                # window extents
+                    start[opd] = indices.at(tuple(p) + (k,))
                 wext = {opd: updates.shape[ud] for ud, opd in zip(uwd, window_operand_dims)}
                 conds = []
                 uidx = [None] * updates.ndim
-                for sd, pi in zip(upd_scatter_dims, p):
-                    uidx[sd] = pi
+                for sd_, pi in zip(upd_scatter_dims, p):
+                    uidx[sd_] = pi
                 inb = True
                 for opd in range(a.ndim):
+                    if opd in obd:
+                        continue
                     if opd in iwd:
                         s = start[opd]
                         if clip:
@@ -1210,14 +1220,24 @@ def _reduce(kind):
                 vals = [a.at(full_index(idx, r)) for r in itertools.product(*[range(d) for d in red_ext])]
                 return fold(kind, vals, ok)
             return [SArr(shp, ok, fn, eqn.outvars[0].aval.dtype)]
-        if len(axes) != 1:
-            raise Unsupported("symbolic multi-axis reduction")
-        ext = red_ext[0]
+        sym_pos = [k for k, d in enumerate(red_ext) if not isinstance(d, int)]
+        if len(sym_pos) != 1:
+            raise Unsupported("reduction over several symbolic axes")
+        sp = sym_pos[0]
+        ext = red_ext[sp]
+        conc = [d for k, d in enumerate(red_ext) if k != sp]
 
         def fn_sym(idx):
             rid = len(ctx.reductions)
             sym = z3.Const(ctx.fresh(f"red_{kind}"), sort_of_kind(ok))
-            body = lambda j: a.at(full_index(idx, (j,)))
+
+            def body(j):
+                vals = []
+                for c in itertools.product(*[range(d) for d in conc]):
+                    ridx = list(c)
+                    ridx.insert(sp, j)
+                    vals.append(a.at(full_index(idx, tuple(ridx))))
+                return fold(kind, vals, ok)
             ctx.reductions.append(Reduction(rid, kind, ext, body, sym))
             return sym
         return [SArr(shp, ok, fn_sym, eqn.outvars[0].aval.dtype)]
